@@ -52,9 +52,11 @@ def handle (j : J) : Except String J := do
       match (← e.asArr) with
       | [d, p, b] => pure (((← d.asNat), (← p.asNat)), (← b.asBool))
       | _ => .error "prev = [dpid,port,bool]"
-    match updateTree adj order conns prev with
+    let fail ← j.optNat "fail"
+    match updateTreeF adj order conns prev fail with
     | .error e => pure (J.mk [("exc", J.str e)])
-    | .ok (_, mods) => pure (J.mk [("mods", J.arr (mods.map modToJ))])
+    | .ok (pv, mods) => pure (J.mk [("mods", J.arr (mods.map modToJ)),
+                                    ("prev", J.arr (pv.map fun ((d, p), b) => J.arr [J.ofNat d, J.ofNat p, J.bool b]))])
   else if op = "history" then
     let vs ← j.string "variant"
     let v ← if vs = "fixed" then pure fixed else if vs = "pinned" then pure pinned else .error "variant = fixed|pinned"
